@@ -59,10 +59,13 @@ PROPS = {
               "of x identical to the west edge of x+1, the south latitude of row y identical to the north latitude of row y+1 "
               "for every oracle; corner order NW,NE,SE,SW bottom then top; every point of R^3 lies in exactly one voxel per "
               "zoom pair (tiling); option/format errors, result sizes, no panic. The model equals the Go code bit for bit "
-              "(all 8 vertices and the centre, both ID forms, wrap/clamp of out-of-range indices); the centre round trip is "
-              "evaluated on the implementation on every generated ID.",
-        note="partial: latitudes come from libm (oracle); the centre round trip (all three axes) is checked on the "
-             "implementation, not proved.",
+              "(all 8 vertices and the centre, both ID forms, wrap/clamp of out-of-range indices). Props/C02Centre.lean: "
+              "the centre of column x has longitude exactly 180(2x+1)/2^h - 180 and its column is x for every valid column at "
+              "every zoom 0..35 (centre_roundtrip_x); the vertical index of the centre of cell f is f for every |f| < 2^52 at "
+              "every zoom pair whenever the three latitudes involved are accepted (centre_roundtrip_f). The centre round trip "
+              "is also evaluated on the implementation on every generated ID (all three axes).",
+        note="partial: latitudes come from libm (oracle), so the row (y) part of the centre round trip is checked on the "
+             "implementation, not proved; the column and vertical parts are theorems (C02Centre).",
         technique="Lean 4 theorems over a bit-exact software-binary64 model + differential correspondence with the Go code",
     ),
 
@@ -319,10 +322,14 @@ PROPS = {
               "of its bottom altitude to the cell of its top altitude, inside the range (v2b_spec); the reverse direction is "
               "a contiguous run between the cell's bottom and top altitude (b2v_spec); max < min is an error in both "
               "exported conversions; equal heights select the index form. Over exact rationals the same loop returns "
-              "clamp(floor((alt-lo)*2^z/(hi-lo)), 0, 2^z-1) for hi > lo (calcQ_spec). The model equals the Go code bit "
+              "clamp(floor((alt-lo)*2^z/(hi-lo)), 0, 2^z-1) for hi > lo (calcQ_spec). Props/C17Q.lean: the binary64 loop "
+              "returns that same exact index whenever the altitude keeps a margin zoom*eta(B) from every border the bisection "
+              "visits, eta(B) the accumulated rounding bound for heights of magnitude <= B (calcBit_float_spec, from the "
+              "midpoint error bound of C06Mid). The model equals the Go code bit "
               "for bit (hooks calcBitIndex, convertVerticallIDToBit, convertBitToVerticalID and both exported functions).",
-        note="the exact-arithmetic specification (calcQ_spec) is proved for the rational instance of the loop; the binary64 "
-             "instance may differ from it only when the altitude is within rounding of a cell border (not quantified).",
+        note="the exact-arithmetic specification (calcQ_spec) is proved for the rational instance of the loop and for the "
+             "binary64 instance away from cell borders (calcBit_float_spec, margin zoom*eta(B)); within that margin of a "
+             "border the binary64 result may be the neighbouring cell.",
         technique="Lean 4 theorems over a bit-exact software-binary64 model + differential correspondence with the Go code",
     ),
     "C18": dict(
